@@ -111,4 +111,14 @@ CHECKS = {
     technique='TLC trace validation (specs/Trace_Server.tla, clauses T_x) of recorded executions of real UdpClient + real server loop under virtual time over timer configurations, cut moments, unanswered connects and every setter order',
     text='Per event TLC checks: idle links stay up (no silence disconnect before connection_timeout of silence, no DROPPED before 5 s without an accepted server datagram) and both sides emit within keep-alive + tick; after a cut the server drops the client within connection_timeout + 2 ticks and the client reports DROPPED within 5 s + 2 ticks; an unanswered connect ends DISCONNECTED at the configured time-out with the callback (if any) called once with False; setters never raise and the governed behaviour (client keep-alive cadence, message time-out of an unacknowledged send) uses the value set, for every order of the three setters relative to connect.',
     note='Trusted: TLC, the JSON bridge, the lock-step harness (harness/srvworld.py: real UdpServerThread.run behind TwistedServer.datagramReceived, real UdpClients with fake sockets, module attributes time/sleep/select/reactor rebound from outside, virtual clock). Real sockets, the Twisted reactor and TLS are replaced. Runs are seeded samples of the stated scenario families.'),
+ "C02": dict(
+    level="model_checking",
+    technique="TLC exhaustive model checking of the symbolic Dolev-Yao model specs/Handshake.tla + replay of every explored transition, concretised with real P-256/ECDSA/HKDF/AES-GCM, into a real UdpClient and the real server loop (state equality after each step) + TLC-judged byte-level mutation sweep of the genuine server hello",
+    text=("Handshake.tla models the three datagrams as terms, the honest endpoints with their error paths, and an attacker that sees everything, replays/redirects any datagram from any address, composes hellos from known values, "
+          "signs only with its own root key, garbles fields, and derives keys only where it owns a private half; ClientAuth, NoKeyOnReject, KeySecret, Promotion, ConnectEvent and Agreement are checked for every behaviour with up to 3-4 attacker datagrams. "
+          "Every transition TLC explores (all with 1 attacker datagram, a seeded sample with 2) is executed on a fresh real client and server loop along the shortest path to its source state, with real keys, signatures copied / re-signed / damaged exactly "
+          "as the term says, and the real status, key bytes, token, server pools and connect events must equal the specification state. Every single-bit flip and truncation of the genuine server hello, and one flip per byte with a recomputed CRC, is "
+          "judged by TLC: connected and keyed only if the signed parameters and signature are verbatim, otherwise no key."),
+    note=("Unforgeability of ECDSA and secrecy of ECDH/HKDF are assumed (symbolic abstraction). Fresh random key pairs each run (sampled). Two server sessions, one client. "
+          "The lock-step server harness is trusted.")),
 }
